@@ -96,6 +96,7 @@ def execute(scn, prefix, base, step_budget=400, strict=True):
     shutil.rmtree(root, ignore_errors=True)
     os.makedirs(root)
     for n, hx in scn["files"].items():
+        os.makedirs(os.path.dirname(os.path.join(root, n)), exist_ok=True)
         with open(os.path.join(root, n), "wb") as f:
             f.write(bytes.fromhex(hx))
     if scn.get("df"):
@@ -120,6 +121,10 @@ def execute(scn, prefix, base, step_budget=400, strict=True):
             saved_df = (dfm, dfm.threading)
             dfm.threading = S.ThreadingProxy(sched, _thr)
             fc = dfm.PandasDataFrameCache(max_memory=scn["max"], root_path=root)
+            try:
+                fc.append_locks.data = S.RegistryDict(sched)
+            except Exception:
+                pass
         else:
             fc = fcm.FileCache(max_memory=scn["max"], root_path=root)
         try:
@@ -142,7 +147,8 @@ def execute(scn, prefix, base, step_budget=400, strict=True):
         def client(tid, ops):
             def body():
                 for k, op in enumerate(ops):
-                    sched.first_point(first_label(op))
+                    lbl = first_label(op)
+                    sched.first_point(lbl, enabled=(lambda: not fc.file_futures_lock.held) if lbl == "lock" else None)
                     inv = sched.step
                     sched.note(op=[tid, k])
                     try:
@@ -198,26 +204,46 @@ def execute(scn, prefix, base, step_budget=400, strict=True):
             raise S.HarnessGlitch(f"{status}: {sched.diag}")
         ex.trace = sched.trace
         ex.crashes = [f"{t.tid}: {t.crash!r}" for t in sched.threads.values() if t.crash is not None]
-        # ---- final state
-        ex.futures = [dict(fid=f.fid, name=f.name, kind=f.kind, done=f.done(),
-                           value=((bytes(f.value).hex() if not scn.get("df") else "frame")
-                                  if f.value is not None and f.exc is None else None),
+        # ---- final state (whatever the code left there is an observation: never an error of the check)
+        ex.state_error = None
+
+        def _val(f):
+            if f.value is None or f.exc is not None:
+                return None
+            if scn.get("df"):
+                return "frame"
+            try:
+                return bytes(f.value).hex()
+            except Exception:
+                return "unreadable:" + type(f.value).__name__
+
+        ex.futures = [dict(fid=f.fid, name=f.name, kind=f.kind, done=f.done(), value=_val(f),
                            exc=(type(f.exc).__name__ if f.exc is not None else None),
                            data=(f.data.hex() if f.data is not None else None))
                       for f in fc.executor.futures]
-        ex.mem = fc.current_memory_usage
-        ex.entries = {n: dict(writing=bool(info[0]), size=int(info[1]), fid=getattr(info[2], "fid", -1))
-                      for n, info in fc.file_futures.items()}
-        ex.acc = sorted(fn for _, fn in fc.file_access_times)
+        try:
+            ex.mem = fc.current_memory_usage
+            ex.entries = {str(n): dict(writing=bool(info[0]), size=int(info[1]), fid=getattr(info[-1], "fid", -1))
+                          for n, info in list(fc.file_futures.items())}
+            ex.acc = sorted(str(x[-1]) for x in list(fc.file_access_times))
+        except Exception as e:
+            ex.state_error = f"{type(e).__name__}: {e}"
+            ex.mem, ex.entries, ex.acc = getattr(ex, "mem", 0), getattr(ex, "entries", {}), []
         ex.disk = {}
-        for n in sorted(os.listdir(root)):
-            with open(os.path.join(root, n), "rb") as f:
-                raw = f.read()
-            if scn.get("df"):
-                from klongpy.db.helpers import deserialize_df
-                ex.disk[n] = _frame_rows(deserialize_df(raw)) if raw else []
-            else:
-                ex.disk[n] = raw.hex()
+        for dp, _dn, fns in os.walk(root):
+            for fn in fns:
+                full = os.path.join(dp, fn)
+                n = os.path.relpath(full, root)
+                with open(full, "rb") as f:
+                    raw = f.read()
+                if scn.get("df"):
+                    from klongpy.db.helpers import deserialize_df
+                    try:
+                        ex.disk[n] = _frame_rows(deserialize_df(raw)) if raw else []
+                    except Exception as e:      # a torn / undecodable table file is an observation, not an error
+                        ex.disk[n] = ["undecodable", type(e).__name__, len(raw)]
+                else:
+                    ex.disk[n] = raw.hex()
     finally:
         ex.leaked = sched.shutdown()
         if saved_df is not None:
@@ -350,6 +376,8 @@ def oracle(ex, scn):
         if h["res"][0] == "raises":
             fails.append(("raises:" + h["res"][1], "every call returns a value",
                           f"{h['tid']} {h['op']} raised {h['res'][1]}"))
+    if getattr(ex, "state_error", None):
+        fails.append(("final-state:unreadable", "entry table / access list / byte total readable at quiescence", ex.state_error))
     names = sorted(set(scn["files"]) | {h["op"][1] for h in ex.hist})
     nops = sum(len(t) for t in scn["threads"]) + len(scn.get("setup") or [])
     if len(ex.hist) != nops:
@@ -514,7 +542,7 @@ def model_line(scn, ex):
     progs = ([scn["setup"]] if scn.get("setup") else []) + scn["threads"]
     steps = []
     for st in ex.trace:
-        if st["label"] == "unlock":
+        if S.is_stutter(st["label"]):
             continue
         ev = []
         if st["tid"].startswith("K") and st["label"] == "lock":
@@ -543,7 +571,7 @@ def real_view(scn, ex):
     # left out on both sides (the machine has already moved them to their next real point)
     en = [(sorted(_cid(scn, t) for t in st["enabled"] if t not in st.get("parked", [])),
            sorted(_cid(scn, t) for t in st.get("parked", [])))
-          for st in ex.trace if st["label"] != "unlock"]
+          for st in ex.trace if not S.is_stutter(st["label"])]
     ents = ",".join(sorted(f"{n}/{1 if e['writing'] else 0}/{e['size']}/{e['fid']}" for n, e in ex.entries.items()))
     disk = ",".join(sorted(f"{n}@{hx}" for n, hx in ex.disk.items()))
     tasks = ",".join(("ok:" + f["value"]) if f["done"] and f["exc"] is None and f["value"] is not None
@@ -560,7 +588,7 @@ def compare_model(scn, ex, reply):
         return f"machine refused the real schedule: {reply[:300]}"
     rv = real_view(scn, ex)
     ens = [set(x for x in e.split(",") if x) for e in f.get("en", "").split(";")] if f.get("en", "") else []
-    nsetup = sum(1 for st in ex.trace[:ex.setup_steps] if st["label"] != "unlock")
+    nsetup = sum(1 for st in ex.trace[:ex.setup_steps] if not S.is_stutter(st["label"]))
     if len(ens) != len(rv["en"]):
         return f"en: machine has {len(ens)} steps, real run {len(rv['en'])}"
     for i, (real_en, parked) in enumerate(rv["en"]):
@@ -611,6 +639,10 @@ def core_scenarios():
                                          files={"f": b"TOOLARGE".hex()})),
         ("cached:unload||get||update-other", S1([[["unload", "f"]], [["get", "f"]], [["update", "g", NEW6, 0]]],
                                                 files={"f": OLD, "g": XY}, setup=[["get", "f"]])),
+        # two files in a directory that does not exist yet (the workers' write prelude races), plus a reader
+        ("newdir:update-d/a||update-d/b", S1([[["update", "d/a", NEW6, 0]], [["update", "d/b", XY, 1]]], files={})),
+        ("newdir:update-d/a||update-d/b;get-d/a", S1([[["update", "d/a", NEW6, 1]], [["update", "d/b", XY, 0], ["get", "d/a"]]],
+                                                     files={})),
         # a getter parked between its stat calls and the lock while the file is replaced and dropped
         ("stat-gap:get||update;unload", S1([[["get", "f"]], [["update", "f", NEW6, 0], ["unload", "f"]]])),
         ("stat-gap:get||update-f;update-g(evicts)", S1([[["get", "f"]], [["update", "f", b"ABCD".hex(), 0], ["update", "g", b"GHIJ".hex(), 0]]],
@@ -625,6 +657,8 @@ def core_scenarios():
 
 def random_scenario(rng, nthreads=None):
     names = ["f"] if rng.random() < 0.5 else ["f", "g"]
+    if rng.random() < 0.2:
+        names = ["d/" + n for n in names]          # in a sub-directory (missing unless a file starts there)
     maxmem = rng.choice([64, 64, 64, 6, 8])
     pool = [OLD, XY, b"".hex(), b"ABCDE".hex()]
     files = {n: rng.choice(pool) for n in names if rng.random() < 0.85}
@@ -804,7 +838,12 @@ def work(args):
             import traceback
             tb = traceback.format_exc()[-1500:]
             if attempt == 2:
-                out["infra"] = "worker exception in scenario %s: %s" % (name, tb)
+                if "HarnessGlitch" in tb or "Infra" in tb:
+                    out["infra"] = "worker exception in scenario %s: %s" % (name, tb)
+                else:       # the check could not digest what the code did: broken tie with the scenario as case
+                    out = dict(name=name, n=0, hist={}, fails=[], truncated=False, infra=None,
+                               mismatches=[(dict(kind="schedule", scenario=scn, choices=[]),
+                                            "harness could not process the run: " + tb[-600:])])
             else:
                 out = dict(name=name, n=0, hist=collections.Counter(), fails=[], mismatches=[], truncated=False,
                            infra=None, retried=tb)
@@ -881,7 +920,7 @@ def run(ctx):
         for i in range(28):
             jobs.append(("explore", f"rnd{i}", random_scenario(ctx.rng), 2, 300))
         for name, scn in df_scenarios():
-            jobs.append(("explore", name, scn, 1, 60))
+            jobs.append(("explore", name, scn, 2, 500 if "two-files" not in name else 150))
         jobs.sort(key=lambda j: -(j[4] if j[0] == "explore" else 10 ** 9))
     else:
         for name, scn in core_scenarios():
